@@ -65,7 +65,9 @@ func (nullFinder) FindDependencies(fsys interface{ Open(string) (interface{}, er
 }
 
 var sNames = []string{"a", "b", "d", "e", "main.tf", ".git", ".terraform", "modules", "logs", "x y", "é", "keep", "..data", "...", ".hidden"}
-var sRuleFiles = []string{"", "", "logs/\n", "*.log\n", "d/\n!d/keep\n", "a\n", "d\n", "/e\n", "d/*\n", "!.terraform/\n", "logs/\nb\n", "**/keep\n"}
+var sRuleFiles = []string{"", "", "logs/\n", "*.log\n", "d/\n!d/keep\n", "a\n", "d\n", "/e\n", "d/*\n", "!.terraform/\n", "logs/\nb\n", "**/keep\n",
+	// a negation followed by a plain exclusion that re-excludes part of it (seed C10-e: last match wins)
+	"*.log\n!x.log\nlogs/*.log\n", "d/\n!d/keep\nd/ke*\n", "a\n!a\na\n"}
 
 func genFetched(r *Rng) []PNode {
 	var nodes []PNode
@@ -111,7 +113,7 @@ type simpleFinder struct{}
 
 func init() {
 	lanes["sanitise"] = func(cfg *Config, rep *Report) {
-		rep.Rule = "one fetched package tree per build: 1..9 nodes (files, directories, fifos, links over 22 target shapes: in-package relative and absolute-into-the-work-directory, dangling, to a directory, to a sibling package, to the manifest name, out of the bundle, through ignored directories, '..' detours) plus one of 12 rule files; non-trivial = has a link, a fifo or a rule file; distinct by tree"
+		rep.Rule = "one fetched package tree per build: 1..9 nodes (files, directories, fifos, links over 22 target shapes: in-package relative and absolute-into-the-work-directory, dangling, to a directory, to a sibling package, to the manifest name, out of the bundle, through ignored directories, '..' detours) plus one of 15 rule files; non-trivial = has a link, a fifo or a rule file; distinct by tree"
 		r := NewRng(cfg.Seed)
 		work, err := filepath.EvalSymlinks(cfg.Work)
 		if err != nil {
